@@ -278,8 +278,9 @@ _reg("C13", c13.run, translator=("T1", "T2", "T11"), module="NirVerif.Properties
                 "fields). Independence of mutable state cannot be expressed in a model of "
                 "immutable values: it is observed on the real objects by the oracle (ids, shared memory, mutation).",
      level_note="Lean kernel; hand-written models of to_dict/from_dict/write/read and of the h5py contract (create_dataset conversions, item[()], link names, iteration order), validated against the real library and real files on every run.")
-_reg("C14", c14.run, translator=("T1", "T4", "T5"),
-     theorems=["NirVerif.C14.commute", "NirVerif.C14.commute_keyed", "NirVerif.C14.inferred_is_stable"],
+_reg("C14", c14.run, translator=("T1", "T4", "T5"), module="NirVerif.Properties.C14File",
+     theorems=["NirVerif.C14.commute", "NirVerif.C14.commute_keyed", "NirVerif.C14.inferred_is_stable",
+               "NirVerif.C14.inferableK_perm", "NirVerif.C14.dict_roundtrip_commutes", "NirVerif.C14.file_roundtrip_commutes"],
      rule="Consistent graphs (C08 domain, plus grouped convolutions for the commutation clause) under 8 (thorough 32) "
           "operation histories of length 1-4 over {infer_types, write+read, to_dict+from_dict}: after every round trip of an "
           "inferred graph the carried annotations must be regained, and one more infer_types must give the ground-truth types.",
@@ -288,8 +289,13 @@ _reg("C14", c14.run, translator=("T1", "T4", "T5"),
                 "round trips that preserves local consistency; local consistency is itself proved from per-node conditions "
                 "(commute_keyed) whatever subset of Output shapes, input sides, Flatten outputs, Conv types and pooling "
                 "types each of the two graphs has erased - pooling types never survive a file round trip, Conv/Flatten/"
-                "Input/Output annotations do; and an inferred graph is a fixed point of inference. That the real round "
-                "trips return a graph meeting the per-node conditions is checked by the oracle on sampled histories.",
+                "Input/Output annotations do; and an inferred graph is a fixed point of inference. The condition is "
+                "discharged inside the model for both round trips: from_dict(to_dict(g)) IS g for graphs nested to any depth "
+                "whose leaves the dictionary form reproduces (dict_roundtrip_commutes, no consistency hypothesis), and for a "
+                "flat graph of file-exact nodes consistent with tau whatever read(write(g)) returns is again consistent with "
+                "tau - the node dictionary comes back permuted by name, which inference does not see (inferableK_perm) - so "
+                "inferring it gives tau on every node and passes the type check (file_roundtrip_commutes). That the real "
+                "read / from_dict behave like the model's is the correspondence run on sampled histories.",
      level_note="Lean kernel; hand-written models of to_dict/from_dict/write/read and of the h5py contract (create_dataset conversions, item[()], link names, iteration order), validated against the real library and real files on every run.")
 _reg("C15", c15.run, translator=("T1", "T3", "T16"), module="NirVerif.Properties.C15Generated",
      theorems=["NirVerif.C15.modes", "NirVerif.C15.step_refines", "NirVerif.C15.refines", "NirVerif.C15.read_after_history",
